@@ -251,6 +251,19 @@ def main():
 def build(b, datasets, func_adl, simplify_chained_calls, fn_form):
     from func_adl.ast.ast_hash import calc_ast_hash
 
+    if b.get("pad_to"):
+        # pad a string constant so that the default dump of the query is exactly pad_to
+        # characters long (measured on a first build with an empty pad)
+        def with_pad(n):
+            return [[op, arg.replace("PAD", "x" * n) if isinstance(arg, str) else arg]
+                    for op, arg in b["stages"]]
+
+        a0 = build(dict(b, pad_to=None, stages=with_pad(0)), datasets, func_adl,
+                   simplify_chained_calls, fn_form)
+        pad = b["pad_to"] - len(ast.dump(a0))
+        if pad < 0:
+            raise ValueError("query longer than the requested size")
+        b = dict(b, pad_to=None, stages=with_pad(pad))
     ds = datasets[b.get("dataset", 0) % len(datasets)]
     early = b.get("hash_early")
     if b.get("repeat"):
